@@ -313,74 +313,93 @@ def validateGroupKey (q : AggStmt) (canon : String) : Outcome Unit :=
   | none => .error .groupKeyNotAvailable
   | some parts => if parts.any (·.2 == canon) then .ok () else .error .groupKeyNotAvailable
 
-/-- `update_aggregate` for one aggregate of one row -/
-def updateAggregate (O : Oracles) (q : AggStmt) (env : Env) (key : List Value) (idx : Nat) (k : AggKind)
-    (st : AggState) : Outcome AggState :=
+/-- the two map entries an aggregate owns in its group: `group_aggregators[key][idx]` and `group_values[key][idx]` -/
+structure Cell where
+  agg : Option Aggregator := none
+  val : Option Value := none
+  deriving Repr, Inhabited
+
+/-- `update_aggregate` for one aggregate of one row, as a function of that aggregate's own cell: every
+`get_group_value` / `get_group_aggregator` in the code addresses exactly (`group_key`, `aggregate_index`). -/
+def cellStep (O : Oracles) (q : AggStmt) (env : Env) (k : AggKind) (c : Cell) : Outcome Cell :=
   match k with
   | .groupKey _ canon => do
     validateGroupKey q canon
-    pure st
+    pure c
   | .count col distinct =>
     if col.isNone && distinct then .error .distinctRequiresColumn
     else do
       let (valid, cv) ← (match col with
-        | some c => match env.get .table c with
+        | some cn => match env.get .table cn with
           | some v => pure (!v.isNull, v)
           | none => Outcome.error .columnNotFound
         | none => pure (true, Value.null) : Outcome (Bool × Value))
-      let (st, valid) ← (if valid && distinct then do
-          let (st, a) := getAgg st key idx (.countDistinct [])
+      let (c, valid) ← (if valid && distinct then do
+          let a := c.agg.getD (.countDistinct [])
           let (a', r) ← aggUpdate a cv
-          let st := setAgg st key idx a'
-          pure (st, match r with
+          pure ({ c with agg := some a' }, match r with
             | some v => v.truthy
             | none => valid)
-        else pure (st, valid) : Outcome (AggState × Bool))
+        else pure (c, valid) : Outcome (Cell × Bool))
       if valid then
-        let (st, cur) := getVal st key idx (.int 0)
-        match cur with
-        | .int n => pure (setVal st key idx (.int (n + 1)))
-        | _ => pure st
-      else pure st
+        match c.val.getD (.int 0) with
+        | .int n => pure { c with val := some (.int (n + 1)) }
+        | other => pure { c with val := some other }
+      else pure c
   | .min e | .max e => do
     let v ← eval O env e
     if !v.isNull then
-      let (st, cur) := getVal st key idx v
+      let cur := c.val.getD v
       let better : Bool := match k with
         | .min _ => cur.isNull || Value.cmp v cur == .lt
         | _ => cur.isNull || Value.cmp v cur == .gt
-      pure (if better then setVal st key idx v else st)
-    else pure (getVal st key idx .null).1
+      pure { c with val := some (if better then v else cur) }
+    else pure { c with val := some (c.val.getD .null) }
   | .sum e | .avg e | .stddev e _ | .percentile e _ | .boolAnd e | .boolOr e => do
     let v ← eval O env e
-    let (st, a) := getAgg st key idx (defaultAggregator k v)
+    let a := c.agg.getD (defaultAggregator k v)
     if !v.isNull then do
       let (a', r) ← aggUpdate a v
-      let st := setAgg st key idx a'
       match r with
-      | some value => pure (setVal st key idx value)
-      | none => pure st
-    else if aggIsNull a then pure (setVal st key idx .null)
-    else pure st
+      | some value => pure { agg := some a', val := some value }
+      | none => pure { c with agg := some a' }
+    else if aggIsNull a then pure { agg := some a, val := some .null }
+    else pure { c with agg := some a }
   | .arrayAgg e => do
     let v ← eval O env e
-    match gmLookup st.vals key idx with
-    | some (.array t xs) => pure (setVal st key idx (.array t (xs ++ [v])))
-    | some _ => pure st
+    match c.val with
+    | some (.array t xs) => pure { c with val := some (.array t (xs ++ [v])) }
+    | some _ => pure c
     | none =>
       match v.valueType with
-      | some t => pure (setVal st key idx (.array t [v]))
+      | some t => pure { c with val := some (.array t [v]) }
       | none => .error .cannotCreateArrayOfNullType
   | .stringAgg e delim => do
     let v ← eval O env e
     match v with
     | .text s =>
-      let (st, cur) := getVal st key idx (.text [])
-      match cur with
-      | .text c => pure (setVal st key idx (.text (if c.isEmpty then s else c ++ delim ++ s)))
-      | _ => pure st
-    | .null => pure st
+      match c.val.getD (.text []) with
+      | .text cur => pure { c with val := some (.text (if cur.isEmpty then s else cur ++ delim ++ s)) }
+      | other => pure { c with val := some other }
+    | .null => pure c
     | _ => .error .expectedStringValue
+
+def readCell (st : AggState) (key : List Value) (idx : Nat) : Cell :=
+  { agg := gmLookup st.aggs key idx, val := gmLookup st.vals key idx }
+
+/-- entries are only ever created or overwritten, never removed -/
+def writeCell (st : AggState) (key : List Value) (idx : Nat) (c : Cell) : AggState :=
+  let st := match c.agg with
+    | some a => setAgg st key idx a
+    | none => st
+  match c.val with
+  | some v => setVal st key idx v
+  | none => st
+
+def updateAggregate (O : Oracles) (q : AggStmt) (env : Env) (key : List Value) (idx : Nat) (k : AggKind)
+    (st : AggState) : Outcome AggState := do
+  let c ← cellStep O q env k (readCell st key idx)
+  pure (writeCell st key idx c)
 
 def updateAggregates (O : Oracles) (q : AggStmt) (env : Env) (key : List Value) :
     List (Nat × AggKind) → AggState → Outcome AggState
